@@ -63,7 +63,54 @@ fn wiring(src: &mut Src) -> Result<String, String> {
 
 // ---------------------------------------------------------------- G3 accessors
 
-struct AccVisitor { out: Vec<String>, guard: u32, err: Option<String> }
+#[derive(Default)]
+struct AccVisitor {
+    out: Vec<String>, guard: u32, err: Option<String>,
+    /// helper functions of the same type (`Self::h(..)` / `self.h(..)`): executed in place, parameters bound to the fields passed
+    helpers: std::collections::HashMap<String, (Vec<String>, syn::Block)>,
+    /// a parameter or local that stands for `self.<field>` (value: field name)
+    fields: std::collections::HashMap<String, String>,
+    /// a local bound to `self.<field>.get()` (value: field name)
+    cells: std::collections::HashMap<String, String>,
+    depth: u32,
+}
+
+impl AccVisitor {
+    /// `self.<field>`, `&self.<field>`, or a name standing for one
+    fn field_of(&self, e: &Expr) -> Option<String> {
+        match e {
+            Expr::Paren(p) => self.field_of(&p.expr),
+            Expr::Reference(r) => self.field_of(&r.expr),
+            Expr::Path(_) => self.fields.get(&q(e)).cloned(),
+            _ => self_field(e),
+        }
+    }
+    /// `*self.<field>.get()`, `*<field alias>.get()`, `*<cell alias>`
+    fn deref_of(&self, e: &Expr) -> Option<String> {
+        let e = match e { Expr::Paren(p) => &*p.expr, e => e };
+        if let Expr::Unary(u) = e { if matches!(u.op, syn::UnOp::Deref(_)) {
+            match &*u.expr {
+                Expr::MethodCall(m) if m.method == "get" => return self.field_of(&m.receiver),
+                Expr::Path(_) => return self.cells.get(&q(&u.expr)).cloned(),
+                _ => {}
+            }
+        } }
+        None
+    }
+    fn inline(&mut self, name: &str, args: Vec<&Expr>) -> bool {
+        let (ps, b) = match self.helpers.get(name) { Some(h) if self.depth < 3 => h.clone(), _ => return false };
+        if ps.len() != args.len() { return false; }
+        let mut sub = AccVisitor { helpers: self.helpers.clone(), guard: self.guard, depth: self.depth + 1, ..Default::default() };
+        for (p, a) in ps.iter().zip(args.iter()) {
+            match self.field_of(a) { Some(f) => { sub.fields.insert(p.clone(), f); } None => { self.visit_expr(a); } }
+        }
+        sub.out = std::mem::take(&mut self.out);
+        sub.visit_block(&b);
+        self.out = sub.out;
+        if sub.err.is_some() { self.err = sub.err; }
+        true
+    }
+}
 
 fn ord_name(e: &Expr) -> Option<&'static str> {
     let t = q(e);
@@ -98,8 +145,27 @@ fn fld_lean(f: &str) -> String {
 }
 
 impl<'ast> Visit<'ast> for AccVisitor {
+    fn visit_local(&mut self, l: &'ast syn::Local) {
+        if let Some(init) = &l.init {
+            self.visit_expr(&init.expr);
+            let name = match &l.pat { syn::Pat::Ident(i) => Some(i.ident.to_string()), syn::Pat::Type(t) => match &*t.pat { syn::Pat::Ident(i) => Some(i.ident.to_string()), _ => None }, _ => None };
+            if let Some(n) = name {
+                if let Some(f) = self.field_of(&init.expr) { self.fields.insert(n, f); }
+                else if let Expr::MethodCall(m) = &*init.expr { if m.method == "get" && m.args.is_empty() { if let Some(f) = self.field_of(&m.receiver) { self.cells.insert(n, f); } } }
+            }
+        }
+    }
     fn visit_expr(&mut self, e: &'ast Expr) {
         match e {
+            Expr::Call(c) if q(&c.func).starts_with("Self::") && self.helpers.contains_key(q(&c.func).trim_start_matches("Self::")) => {
+                let name = q(&c.func).trim_start_matches("Self::").to_string();
+                let args: Vec<&Expr> = c.args.iter().collect();
+                if !self.inline(&name, args) { syn::visit::visit_expr(self, e); }
+            }
+            Expr::MethodCall(m) if q(&m.receiver) == "self" && self.helpers.contains_key(&m.method.to_string()) => {
+                let args: Vec<&Expr> = m.args.iter().collect();
+                if !self.inline(&m.method.to_string(), args) { syn::visit::visit_expr(self, e); }
+            }
             Expr::If(i) => {
                 self.visit_expr(&i.cond);
                 self.guard += 1;
@@ -109,7 +175,7 @@ impl<'ast> Visit<'ast> for AccVisitor {
             }
             Expr::MethodCall(m) => {
                 let name = m.method.to_string();
-                if let Some(f) = self_field(&m.receiver) {
+                if let Some(f) = self.field_of(&m.receiver) {
                     let kind = match name.as_str() { "load" => Some(".load"), "store" => Some(".store"), "fetch_add" => Some(".fetchAdd"), "fetch_sub" => Some(".fetchSub"),
                         "swap" | "compare_exchange" | "compare_exchange_weak" | "fetch_and" | "fetch_or" | "fetch_update" => { self.err = Some(format!("atomic operation `{name}`")); None }
                         _ => None };
@@ -126,7 +192,7 @@ impl<'ast> Visit<'ast> for AccVisitor {
             }
             Expr::Assign(a) => {
                 self.visit_expr(&a.right);
-                match cell_deref(&a.left) {
+                match self.deref_of(&a.left) {
                     Some(f) => self.out.push(format!("⟨{}, .write, .plain, {}⟩", fld_lean(&f), self.guard > 0)),
                     None => self.visit_expr(&a.left),
                 }
@@ -134,13 +200,13 @@ impl<'ast> Visit<'ast> for AccVisitor {
             Expr::Binary(b) if matches!(b.op, syn::BinOp::AddAssign(_) | syn::BinOp::SubAssign(_)) => {
                 self.visit_expr(&b.right);
                 let k = if matches!(b.op, syn::BinOp::AddAssign(_)) { ".addAssign" } else { ".subAssign" };
-                match cell_deref(&b.left) {
+                match self.deref_of(&b.left) {
                     Some(f) => self.out.push(format!("⟨{}, {k}, .plain, {}⟩", fld_lean(&f), self.guard > 0)),
                     None => self.err = Some(format!("compound assignment `{}`", q(e))),
                 }
             }
             _ => {
-                if let Some(f) = cell_deref(e) { self.out.push(format!("⟨{}, .read, .plain, {}⟩", fld_lean(&f), self.guard > 0)); return; }
+                if let Some(f) = self.deref_of(e) { self.out.push(format!("⟨{}, .read, .plain, {}⟩", fld_lean(&f), self.guard > 0)); return; }
                 syn::visit::visit_expr(self, e);
             }
         }
@@ -153,9 +219,18 @@ const ACCESSORS: [&str; 13] = ["prod_index", "work_index", "cons_index", "set_pr
 fn accessors(src: &mut Src, path: &str, owner: &str, lean: &str) -> Result<String, String> {
     let file = src.file(path)?;
     let mut o = String::new();
+    // inherent helper methods of the buffer type (not the accessors themselves)
+    let mut helpers = std::collections::HashMap::new();
+    for it in &file.items { if let syn::Item::Impl(i) = it { if i.trait_.is_none() {
+        let ty = &i.self_ty; if !quote::quote!(#ty).to_string().replace(' ', "").contains(owner.split('<').next().unwrap_or(owner)) { continue; }
+        for ii in &i.items { if let syn::ImplItem::Fn(g) = ii {
+            let n = g.sig.ident.to_string();
+            if !ACCESSORS.contains(&n.as_str()) && !g.attrs.iter().any(|a| a.path().is_ident("cfg")) { helpers.insert(n, (fn_params(&g.sig), g.block.clone())); }
+        } }
+    } } }
     for name in ACCESSORS {
         let f = find_fn(file, &format!("IterManagerfor{owner}"), name).ok_or(format!("`{name}` of IterManager for {owner} not found"))?;
-        let mut v = AccVisitor { out: vec![], guard: 0, err: None };
+        let mut v = AccVisitor { helpers: helpers.clone(), ..Default::default() };
         v.visit_block(f.block);
         if let Some(e) = v.err { return Err(format!("{name}: {e}")); }
         let camel: String = { let mut s = String::new(); let mut up = false; for c in name.chars() { if c == '_' { up = true } else if up { s.push(c.to_ascii_uppercase()); up = false } else { s.push(c) } } s };
@@ -164,12 +239,20 @@ fn accessors(src: &mut Src, path: &str, owner: &str, lean: &str) -> Result<Strin
             // the boolean result: `<fetch_sub> == 1` (old value) or `<read> == 0` (new value)
             let last = match f.block.stmts.last() { Some(Stmt::Expr(e, None)) => e.clone(), _ => return Err("release_iter: no result expression".into()) };
             let last = match last { Expr::Unsafe(u) => match u.block.stmts.last() { Some(Stmt::Expr(e, None)) => e.clone(), _ => return Err("release_iter: unsafe".into()) }, e => e };
+            // a local that names the value tested (`let before = ….fetch_sub(..); before == 1`)
+            let mut named: std::collections::HashMap<String, Expr> = std::collections::HashMap::new();
+            fn lets_of(b: &syn::Block, out: &mut std::collections::HashMap<String, Expr>) { for st in &b.stmts { match st {
+                Stmt::Local(l) => { if let (syn::Pat::Ident(i), Some(init)) = (&l.pat, &l.init) { out.insert(i.ident.to_string(), (*init.expr).clone()); } }
+                Stmt::Expr(Expr::Unsafe(u), _) => lets_of(&u.block, out),
+                _ => {} } } }
+            lets_of(f.block, &mut named);
             let res = match &last {
                 Expr::Binary(b) if matches!(b.op, syn::BinOp::Eq(_)) => {
                     let rhs = q(&b.right);
-                    match &*b.left {
+                    let lhs: Expr = match &*b.left { Expr::Path(_) => named.get(&q(&b.left)).cloned().unwrap_or((*b.left).clone()), l => l.clone() };
+                    match &lhs {
                         Expr::MethodCall(m) if m.method == "fetch_sub" => format!(".oldEq {rhs}"),
-                        l if cell_deref(l).is_some() => format!(".newEq {rhs}"),
+                        l if v.deref_of(l).is_some() => format!(".newEq {rhs}"),
                         _ => return Err(format!("release_iter: result `{}`", q(&last))),
                     }
                 }
@@ -199,6 +282,8 @@ struct SkelVisitor {
     params: Vec<String>,
     /// private helper methods of the same `impl`, inlined when called on `self`
     helpers: std::collections::HashMap<String, (Vec<String>, syn::Block)>,
+    /// locals that stand for the iterator itself
+    aliases: std::collections::HashMap<String, String>,
     depth: usize,
 }
 
@@ -208,14 +293,19 @@ impl SkelVisitor {
         for _ in 0..4 { match self.lets.get(&t) { Some(v) => t = v.clone(), None => break } }
         t
     }
+    /// Replaces a leading alias of the iterator (`let it = self.inner.inner_mut();`, `let Self { inner, .. } = self;`) by what it stands for.
+    fn expand(&self, t: &str) -> String {
+        let head: String = t.chars().take_while(|c| c.is_alphanumeric() || *c == '_').collect();
+        match self.aliases.get(&head) { Some(full) if !head.is_empty() => format!("{full}{}", &t[head.len()..]), _ => t.to_string() }
+    }
     fn arg(&self, args: &syn::punctuated::Punctuated<Expr, syn::token::Comma>) -> String {
         match args.len() {
             0 => ".none".into(),
             1 => {
                 let raw = q(&args[0]);
-                let raw = raw.trim_start_matches('*').to_string();
+                let raw = self.expand(raw.trim_start_matches('*'));
                 if self.params.contains(&raw) { return ".count".into(); }
-                let t = self.resolve(&raw);
+                let t = self.expand(&self.resolve(&raw));
                 if let Ok(n) = t.parse::<u64>() { format!("(.lit {n})") }
                 else if self.params.contains(&t) || t.strip_suffix(".len()").map(|x| self.params.contains(&x.to_string())).unwrap_or(false) { ".count".into() }
                 else if ["self._index()", "self.index()", "self.index", "self.inner.index()", "self.inner.inner().index()", "self.inner.inner_mut().index()"].contains(&t.as_str()) { ".index".into() }
@@ -236,8 +326,16 @@ fn camel(name: &str) -> String {
 impl<'ast> Visit<'ast> for SkelVisitor {
     fn visit_local(&mut self, l: &'ast syn::Local) {
         if let Some(init) = &l.init { self.visit_expr(&init.expr); }
+        if let Some(init) = &l.init {
+            let it = self.expand(&q(&init.expr));
+            match &l.pat {
+                syn::Pat::Struct(ps) if it == "self" => { for f in &ps.fields { if let (syn::Member::Named(n), syn::Pat::Ident(i)) = (&f.member, &*f.pat) { self.aliases.insert(i.ident.to_string(), format!("self.{n}")); } } return; }
+                syn::Pat::Ident(i) if ["self.inner", "self.inner.inner_mut()", "self.inner.inner()", "self.inner_mut()", "self.inner()"].contains(&it.as_str()) => { self.aliases.insert(i.ident.to_string(), it); return; }
+                _ => {}
+            }
+        }
         let name = match &l.pat { syn::Pat::Ident(i) => Some(i.ident.to_string()), syn::Pat::Type(t) => match &*t.pat { syn::Pat::Ident(i) => Some(i.ident.to_string()), _ => None }, _ => None };
-        if let (Some(n), Some(init)) = (name, &l.init) { let v = self.resolve(&q(&init.expr)); self.lets.insert(n, v); }
+        if let (Some(n), Some(init)) = (name, &l.init) { let v = self.expand(&self.resolve(&q(&init.expr))); self.lets.insert(n, v); }
     }
     fn visit_expr(&mut self, e: &'ast Expr) {
         match e {
@@ -245,8 +343,18 @@ impl<'ast> Visit<'ast> for SkelVisitor {
                 self.visit_expr(&m.receiver);
                 for a in &m.args { self.visit_expr(a); }
                 let name = m.method.to_string();
-                if SKEL_CALLS.contains(&name.as_str()) { let a = self.arg(&m.args); self.out.push(format!("⟨.{}, {}⟩", camel(&name), a)); }
-                else if ["self", "self.inner", "self.inner.inner_mut()", "self.inner.inner()"].contains(&q(&m.receiver).as_str()) && self.depth < 3 {
+                // `as_mut_ptr` / `as_ptr` of one of the caller's own slices (a parameter) is not an access to the storage
+                let recv = self.expand(&q(&m.receiver));
+                let on_param = self.params.iter().any(|p| recv == *p || recv.starts_with(&format!("{p}.")) || recv.starts_with(&format!("{p}[")));
+                if name == "sync_index" && self.helpers.contains_key("sync_index") && self.depth < 3 && ["self", "self.inner"].contains(&recv.as_str()) {
+                    // `Detached::sync_index` called by a sibling method: what it does (the publication) counts as done here
+                    let (_, b) = self.helpers["sync_index"].clone();
+                    let mut inner = SkelVisitor { helpers: self.helpers.clone(), depth: self.depth + 1, ..Default::default() };
+                    inner.visit_block(&b);
+                    self.out.extend(inner.out);
+                }
+                else if SKEL_CALLS.contains(&name.as_str()) && !(on_param && (name == "as_mut_ptr" || name == "as_ptr")) { let a = self.arg(&m.args); self.out.push(format!("⟨.{}, {}⟩", camel(&name), a)); }
+                else if ["self", "self.inner", "self.inner.inner_mut()", "self.inner.inner()"].contains(&recv.as_str()) && self.depth < 3 {
                     if let Some((ps, b)) = self.helpers.get(&name).cloned() {
                         // a private helper of the same impl, or a default method of the iterator traits: what it does counts as done here
                         let mut inner = SkelVisitor { helpers: self.helpers.clone(), depth: self.depth + 1, ..Default::default() };
@@ -312,6 +420,7 @@ fn skeleton(src: &mut Src, path: &str, owner: &str, func: &str, cfg_not_vmem: bo
             for ii in &i.items { if let syn::ImplItem::Fn(f) = ii {
                 if std::ptr::eq(&f.block, b) { v.params = f.sig.inputs.iter().filter_map(|a| match a { syn::FnArg::Typed(t) => match &*t.pat { syn::Pat::Ident(i) => Some(i.ident.to_string()), _ => None }, _ => None }).collect(); }
                 else if matches!(f.vis, syn::Visibility::Inherited) && !SKEL_CALLS.contains(&f.sig.ident.to_string().as_str()) { v.helpers.insert(f.sig.ident.to_string(), (fn_params(&f.sig), f.block.clone())); }
+                else if f.sig.ident == "sync_index" { v.helpers.insert("sync_index".into(), (fn_params(&f.sig), f.block.clone())); }
             } } }
         syn::Item::Trait(t) => { if t.ident != owner { continue; }
             for ti in &t.items { if let syn::TraitItem::Fn(f) = ti { if let Some(d) = &f.default {
@@ -439,7 +548,7 @@ fn pins(src: &mut Src) -> Result<String, String> {
         let file = src.file(path)?;
         let f = find_fn(file, owner, func).ok_or(format!("fn `{func}` of `{owner}` not found"))?;
         let b = f.block;
-        let t = quote::quote!(#b).to_string().replace(' ', "").replace('"', "'");
+        let t = inline_lets_text(b);
         o.push_str(&format!("-- {key}: {t}\n"));
         text.insert(key, (t, f.params.clone()));
     }
@@ -448,8 +557,21 @@ fn pins(src: &mut Src) -> Result<String, String> {
     let cz = &text["check_zeroed"].0;
     let only_zero_lits = int_literals(cz).iter().all(|l| l == "0");
     let span_ok = cz.contains("size_of::<T>()") && !["size_of::<T>()-", "size_of::<T>()/", "size_of::<T>()>>", "size_of::<T>()%", "-size_of", "min("].iter().any(|w| cz.contains(w));
-    let iter_form = cz.contains(".all(|x|*x==0)") || cz.contains(".all(|&x|x==0)") || cz.contains(".all(|b|*b==0)") || cz.contains(".all(|&b|b==0)")
-        || cz.contains("!") && (cz.contains(".any(|x|*x!=0)") || cz.contains(".any(|&x|x!=0)") || cz.contains(".any(|b|*b!=0)") || cz.contains(".any(|&b|b!=0)"));
+    // `.all(|x| *x == 0)` / `!….any(|&x| x != 0)` with any parameter name
+    let closure_test = |method: &str, op: &str| -> bool {
+        let pat = format!(".{method}(|");
+        if let Some(i) = cz.find(&pat) {
+            let rest = &cz[i + pat.len()..];
+            if let Some(j) = rest.find('|') {
+                let par = &rest[..j]; let body = &rest[j + 1..];
+                let (name, deref) = match par.strip_prefix('&') { Some(n) => (n, ""), None => (par, "*") };
+                return !name.is_empty() && name.chars().all(|c| c.is_alphanumeric() || c == '_') && body.starts_with(&format!("{deref}{name}{op}0)"));
+            }
+        }
+        false
+    };
+    let negated_any = closure_test("any", "!=") && { let i = cz.find(".any(|").unwrap_or(0); let head = &cz[..i]; head.starts_with("{!") || head.contains("!(") || head.contains("!unsafe") || head.contains("!bytes") || head.contains("{!") };
+    let iter_form = closure_test("all", "==") || negated_any;
     let loop_form = cz.contains("in0..size_of::<T>()") && cz.contains("!=0{returnfalse;}") && cz.ends_with("true}");
     let check_zeroed = cz.contains("u8") && only_zero_lits && span_ok && (iter_form || loop_form);
     // take_inner: the old content is moved out and the slot is overwritten with zeros
@@ -467,7 +589,8 @@ fn pins(src: &mut Src) -> Result<String, String> {
     let drop_ok = destroys && guarded && dr.contains("self.0");
     // copy_from_slice_unchecked(src, dst): all of `src`, from its start to the start of `dst`
     let cp = &text["copy"].0;
-    let copy_ok = (cp.contains("copy_nonoverlapping(src.as_ptr(),dst.as_mut_ptr(),src.len())") || cp.contains("dst.copy_from_slice(src)")) && int_literals(cp).is_empty();
+    let copy_ok = (cp.contains("copy_nonoverlapping(src.as_ptr(),dst.as_mut_ptr(),src.len())") || cp.contains("dst.copy_from_slice(src)")
+        || cp.contains("dst.as_mut_ptr().copy_from_nonoverlapping(src.as_ptr(),src.len())") || cp.contains("src.as_ptr().copy_to_nonoverlapping(dst.as_mut_ptr(),src.len())")) && int_literals(cp).is_empty();
     let _ = has;
     o.push_str(&format!("def cellFacts : CellFacts := {{ checkZeroedAllBytes := {check_zeroed}, takeInnerLeavesZeros := {take_inner}, duplicateLeavesCell := {duplicate}, dropSkipsZeroed := {drop_ok}, copyWholeSlice := {copy_ok} }}\n"));
     Ok(o)
@@ -564,6 +687,83 @@ fn inline_pure_lets(b: &syn::Block, protect: &[&str]) -> Result<syn::Block, Stri
     // later lets may mention earlier ones: substitute in reverse order of definition, twice
     for _ in 0..2 { for (n, rep) in lets.iter().rev() { ts = subst(ts, n, rep); } }
     syn::parse2::<syn::Block>(ts).map_err(|e| format!("after inlining the local bindings the body does not parse: {e}"))
+}
+
+/// Normalised text of a small function body for shape recognition: every immutable `let x[: T] = e;` of the top level (and of a
+/// top-level `unsafe` block) is removed and its uses replaced by `e`, so that naming a sub-expression changes nothing.
+/// Only used to *recognise* bodies built from pure expressions (constructors, cell primitives); never to reorder effects.
+fn inline_lets_text(b: &syn::Block) -> String {
+    use proc_macro2::{TokenStream, TokenTree, Group, Delimiter};
+    fn subst(ts: TokenStream, name: &str, rep: &TokenStream) -> TokenStream {
+        let mut out: Vec<TokenTree> = vec![];
+        let mut blocked = false; // previous token is `.` or `:` (a field / path segment of that name is something else)
+        let toks: Vec<TokenTree> = ts.into_iter().collect();
+        let n = toks.len();
+        for (k, t) in toks.iter().enumerate() {
+            match t {
+                TokenTree::Ident(i) if i == name && !blocked => {
+                    // struct-literal shorthand `S { x, .. }` means `x: x`
+                    let next_is_colon = matches!(toks.get(k + 1), Some(TokenTree::Punct(p)) if p.as_char() == ':');
+                    if next_is_colon { out.push(t.clone()); } else { out.push(TokenTree::Group(Group::new(Delimiter::None, rep.clone()))); }
+                    blocked = false;
+                }
+                TokenTree::Group(g) => {
+                    let inner = if g.delimiter() == Delimiter::Brace { shorthand(g.stream(), name) } else { g.stream() };
+                    out.push(TokenTree::Group(Group::new(g.delimiter(), subst(inner, name, rep)))); blocked = false;
+                }
+                TokenTree::Punct(p) => {
+                    let prev_is = |c: char| k > 0 && matches!(&toks[k - 1], TokenTree::Punct(q) if q.as_char() == c);
+                    // `.name` is a field or method, `::name` a path segment; `..name` and `..=name` are range ends
+                    blocked = (p.as_char() == '.' && !prev_is('.')) || (p.as_char() == ':' && prev_is(':'));
+                    out.push(t.clone());
+                }
+                other => { blocked = false; out.push(other.clone()); }
+            }
+            let _ = n;
+        }
+        out.into_iter().collect()
+    }
+    /// inside braces, `name ,` / `name }` directly after `{` or `,` is a shorthand field: spell it `name : name`
+    fn shorthand(ts: TokenStream, name: &str) -> TokenStream {
+        let toks: Vec<TokenTree> = ts.into_iter().collect();
+        let mut out = vec![];
+        for (k, t) in toks.iter().enumerate() {
+            out.push(t.clone());
+            if let TokenTree::Ident(i) = t { if i == name {
+                let prev_ok = k == 0 || matches!(&toks[k - 1], TokenTree::Punct(p) if p.as_char() == ',');
+                let next_ok = k + 1 == toks.len() || matches!(&toks[k + 1], TokenTree::Punct(p) if p.as_char() == ',');
+                if prev_ok && next_ok { out.push(TokenTree::Punct(proc_macro2::Punct::new(':', proc_macro2::Spacing::Alone))); out.push(t.clone()); }
+            } }
+        }
+        out.into_iter().collect()
+    }
+    fn go(stmts: &[Stmt]) -> TokenStream {
+        let mut rest: Vec<TokenStream> = vec![];
+        let mut pending: Vec<(String, TokenStream)> = vec![];
+        for st in stmts {
+            let mut ts = match st {
+                Stmt::Expr(Expr::Unsafe(u), semi) if u.attrs.is_empty() => { let inner = go(&u.block.stmts); if semi.is_some() { quote::quote!(unsafe { #inner };) } else { quote::quote!(unsafe { #inner }) } }
+                other => quote::quote!(#other),
+            };
+            for (n, rep) in pending.iter() { ts = subst(ts, n, rep); }
+            if let Stmt::Local(l) = st {
+                if l.attrs.is_empty() {
+                    let name = match &l.pat { syn::Pat::Ident(i) if i.mutability.is_none() && i.by_ref.is_none() => Some(i.ident.to_string()), syn::Pat::Type(t) => match &*t.pat { syn::Pat::Ident(i) if i.mutability.is_none() && i.by_ref.is_none() => Some(i.ident.to_string()), _ => None }, _ => None };
+                    let effectful = |t: &str| ["read(", "write(", "replace(", "take(", "swap(", "drop", "mmap(", "munmap(", "memcpy(", "copy", "fetch_", "store(", "load(", "set_", "forget(", "into_raw(", "from_raw("].iter().any(|w| t.contains(w));
+                    if let (Some(n), Some(init)) = (name, &l.init) { if init.diverge.is_none() && !effectful(&q(&init.expr)) {
+                        let e = &init.expr; let mut rep = quote::quote!(#e);
+                        for (pn, prep) in pending.iter() { rep = subst(rep, pn, prep); }
+                        pending.retain(|(pn, _)| *pn != n);
+                        pending.push((n, rep));
+                        continue;
+                    } }
+                }
+            }
+            rest.push(ts);
+        }
+        rest.into_iter().collect()
+    }
+    format!("{{{}}}", go(&b.stmts).to_string().replace(' ', "").replace('"', "'"))
 }
 
 struct Calls<'a> { found: Vec<(String, &'a syn::ExprCall)> }
@@ -690,18 +890,20 @@ fn vmem_calls(src: &mut Src) -> Result<String, String> {
     let news: Vec<String> = file.items.iter().filter_map(|it| if let syn::Item::Impl(i) = it { Some(i) } else { None })
         .flat_map(|i| i.items.iter()).filter_map(|it| if let syn::ImplItem::Fn(f) = it { Some(f) } else { None })
         .filter(|f| f.sig.ident == "new" && f.attrs.iter().any(|a| quote::quote!(#a).to_string().replace(' ', "") == "#[cfg(feature=\"vmem\")]"))
-        .map(|f| { let b = &f.block; quote::quote!(#b).to_string().replace(' ', "") }).collect();
+        .map(|f| inline_lets_text(&f.block)).collect();
     if news.len() != 1 { return Err("HeapStorage::new (vmem) not found".into()); }
     let t = news[0].replace('"', "'");
     o.push_str(&format!("-- HeapStorage::new (vmem): {t}\n"));
     // shape facts: the mapping is built from the source (`vmem_helper::new(&value)`), the recorded length is the source's,
     // and the source box is freed as `MaybeUninit` cells (deallocated, items not destroyed: they were copied into the mapping)
     let maps = t.matches("vmem_helper::new(&value)").count() == 1 && !t.contains("vmem_helper::new(&value[");
-    let len_direct = t.contains("len:value.len()") || (t.contains("letlen=value.len();") && (t.contains("len,") || t.contains("len}") || t.contains("len:len")));
+    let len_direct = t.contains("len:value.len()");
     let no_lits = int_literals(&t).is_empty();
     let frees = t.contains("drop(") && t.contains("transmute::<Box<[UnsafeSyncCell<T>]>,Box<[core::mem::MaybeUninit<UnsafeSyncCell<T>>]>>(value)")
         || t.contains("drop(") && t.contains("transmute::<Box<[UnsafeSyncCell<T>]>,Box<[MaybeUninit<UnsafeSyncCell<T>>]>>(value)");
-    let no_leak = !t.contains("forget(") && !t.contains("ManuallyDrop") && !t.contains("Box::leak") && !t.contains("into_raw");
+    // `Box::into_raw(value) as *mut [MaybeUninit<..>]` followed by `Box::from_raw` is the same deallocation without destructors
+    let frees = frees || (t.contains("Box::into_raw(value)as*mut[") && t.contains("MaybeUninit<") && t.contains("Box::from_raw(") && t.contains("drop("));
+    let no_leak = !t.contains("forget(") && !t.contains("ManuallyDrop") && !t.contains("Box::leak") && (!t.contains("into_raw") || t.contains("Box::from_raw("));
     o.push_str(&format!("def vmemNewFacts : VmemNewFacts := {{ mapsSource := {maps}, lenIsSourceLen := {}, freesSourceWithoutDestroying := {} }}\n", len_direct && no_lits, frees && no_leak));
     Ok(o)
 }
@@ -871,16 +1073,16 @@ fn construction(src: &mut Src) -> Result<String, String> {
     for (path, owner) in [("src/iterators/sync_iterators/prod_iter.rs", "ProdIter<'buf,B>"), ("src/iterators/sync_iterators/work_iter.rs", "WorkIter<'buf,B>"), ("src/iterators/sync_iterators/cons_iter.rs", "ConsIter<'buf,B,W>")] {
         let file = src.file(path)?.clone();
         let f = find_fn(&file, owner, "new").ok_or(format!("`new` of {owner} not found"))?;
-        let b = f.block;
-        let t = quote::quote!(#b).to_string().replace(' ', "");
-        fresh.push(t.contains("index:0,") && t.contains("cached_avail:0,"));
+        let t = inline_lets_text(f.block);
+        let zero = |fld: &str| t.contains(&format!("{{{fld}:0,")) || t.contains(&format!(",{fld}:0,")) || t.contains(&format!(",{fld}:0}}")) || t.contains(&format!("{{{fld}:0}}"));
+        fresh.push(zero("index") && zero("cached_avail"));
     }
     o.push_str(&format!("def iterNewZero : List Bool := [{}]\n", fresh.iter().map(|b| b.to_string()).collect::<Vec<_>>().join(", ")));
     // (4) lengths: From<Vec<T>> for HeapStorage, get_range_max (both configurations), the heap buffer constructors
     let file = src.file("src/ring_buffer/storage/heap/mod.rs")?.clone();
     let f = find_fn(&file, "From<Vec<T>>forHeapStorage<T>", "from").ok_or("From<Vec<T>> for HeapStorage<T> not found")?;
     let b = f.block;
-    let t = quote::quote!(#b).to_string().replace(' ', "");
+    let t = inline_lets_text(b);
     o.push_str(&format!("-- From<Vec<T>> for HeapStorage: {t}\n"));
     // the whole vector becomes the boxed slice handed to the storage
     let boxed = ["value.into_boxed_slice()", "Box::<[T]>::from(value)", "Box::from(value)", "value.into()", "Box::<[UnsafeSyncCell<T>]>::from(value)"];
@@ -894,16 +1096,24 @@ fn construction(src: &mut Src) -> Result<String, String> {
         for (k, vm) in [(0usize, true), (1usize, false)] {
             if fn_cfg.map(|c| c != vm).unwrap_or(false) { continue; }
             let mut val = String::new();
+            let mut bound: std::collections::HashMap<String, String> = std::collections::HashMap::new();
             for st in &g.block.stmts {
                 let (attrs, txt): (Vec<syn::Attribute>, String) = match st {
                     Stmt::Expr(Expr::Return(r), _) => (r.attrs.clone(), r.expr.as_ref().map(|e| q(e)).unwrap_or_default()),
                     Stmt::Expr(e, None) => (match e { Expr::Block(b) => b.attrs.clone(), Expr::Path(p) => p.attrs.clone(), Expr::Call(c) => c.attrs.clone(), _ => vec![] }, q(e)),
+                    Stmt::Local(l) => {
+                        // `#[cfg(..)] let range_max = <e>;` … `range_max`
+                        if cfg_of(&l.attrs).map(|c| c != vm).unwrap_or(false) { continue; }
+                        if let (syn::Pat::Ident(i), Some(init)) = (&l.pat, &l.init) { bound.insert(i.ident.to_string(), q(&init.expr)); }
+                        continue;
+                    }
                     _ => { val = format!("?{}", quote::quote!(#st).to_string().replace(' ', "")); break; }
                 };
                 if cfg_of(&attrs).map(|c| c != vm).unwrap_or(false) { continue; }
                 // attributes are part of the quoted text of an expression: drop them
                 let txt = match txt.rfind(']') { Some(i) if txt.starts_with("#[") => txt[i + 1..].to_string(), _ => txt };
                 val = txt.trim_start_matches('{').trim_end_matches('}').trim_start_matches("return").trim_end_matches(';').to_string();
+                if let Some(v) = bound.get(&val) { val = v.clone(); }
                 break;
             }
             range[k] = val;
@@ -916,11 +1126,11 @@ fn construction(src: &mut Src) -> Result<String, String> {
     let mut ctor = std::collections::HashMap::new();
     for it in &body.items { if let syn::Item::Impl(i) = it { for ii in &i.items { if let syn::ImplItem::Fn(f) = ii {
         let n = f.sig.ident.to_string();
-        if n == "from" || n == "default" || n == "new_zeroed" { let b = &f.block; let t = quote::quote!(#b).to_string().replace(' ', "").replace('"', "'"); o.push_str(&format!("-- {n}: {t}\n")); ctor.insert(n, t); }
+        if n == "from" || n == "default" || n == "new_zeroed" { let t = inline_lets_text(&f.block); o.push_str(&format!("-- {n}: {t}\n")); ctor.insert(n, t); }
     } } } }
     let g = |k: &str| ctor.get(k).cloned().unwrap_or_default();
     let one_range = |t: &str| t.matches("get_range_max(capacity)").count() == 1 && int_literals(t).iter().all(|l| l == "0");
-    let from_ok = ["{Self::_from(HeapStorage::from(value))}", "{Self::_from(value.into())}", "{Self::_from(HeapStorage::<T>::from(value))}"].contains(&g("from").as_str());
+    let from_ok = ["{Self::_from(HeapStorage::from(value))}", "{Self::_from(value.into())}", "{Self::_from(HeapStorage::<T>::from(value))}", "{Self::_from(HeapStorage::from(value.into_boxed_slice()))}"].contains(&g("from").as_str());
     let nz = g("new_zeroed");
     let new_zeroed_ok = one_range(&nz) && nz.contains("0..get_range_max(capacity)") && nz.contains("UnsafeSyncCell::new_zeroed()") && nz.contains("Self::_from(") && !nz.contains(".take(") && !nz.contains(".skip(") && !nz.contains(".step_by(");
     let df = g("default");
@@ -1063,20 +1273,46 @@ fn async_delegation(src: &mut Src) -> Result<String, String> {
     }
     pairs.sort(); pairs.dedup();
     let mut o = format!("def asyncDelegation : List (String × String × Nat) := [\n  {}]\n", pairs.join(",\n  "));
-    // MRBFuture::poll, normalised
-    let file = src.file("src/iterators/async_iterators/mod.rs")?;
-    let f = find_fn(file, "MRBFuture", "poll").ok_or("MRBFuture::poll not found")?;
+    // MRBFuture::poll: what one poll does, recognised from its landmarks in either of its two usual forms
+    //  (A) a loop run at most twice: attempt (one call site per calling convention `R`), on failure put the payload back, return
+    //      `Pending` if the waker was registered in the previous iteration, else register it and go round again;
+    //  (B) unrolled: attempt, on failure register the waker, attempt again, `Pending` only if that fails too — the attempt (with the
+    //      restoration of the payload) possibly in a private helper method.
+    // Landmarks: the attempt is a call with `self.iter` as first argument; the registration `.register_waker(`; `Poll::Ready(`, `Poll::Pending`.
+    let file = src.file("src/iterators/async_iterators/mod.rs")?.clone();
+    let f = find_fn(&file, "MRBFuture", "poll").ok_or("MRBFuture::poll not found")?;
     let b = f.block;
-    // the shape of `poll`, by counting and ordering its landmarks (robust against renamings and restructurings of the loop body):
-    // the attempt (a call with `self.iter` as first argument, one per value of `R`), the waker registration, the two results,
-    // the restoration of the payload
     let t = quote::quote!(#b).to_string().replace(' ', "");
-    let pos = |pat: &str| t.find(pat);
-    let cnt = |pat: &str| t.matches(pat).count();
-    let before = |a: Option<usize>, b: Option<usize>| matches!((a, b), (Some(x), Some(y)) if x < y);
-    o.push_str(&format!("def pollShape : PollShape := {{ hasLoop := {}, attemptSites := {}, registerSites := {}, readySites := {}, pendingSites := {}, restoresPayload := {}, attemptBeforeRegister := {}, pendingBeforeRegister := {} }}\n",
-        t.contains("loop{"), cnt("(self.iter,"), cnt(".register_waker("), cnt("Poll::Ready("), cnt("Poll::Pending"), t.contains("self.p=Some("),
-        before(pos("(self.iter,"), pos(".register_waker(")), before(pos("Poll::Pending"), pos(".register_waker("))));
+    // private helpers of MRBFuture that perform the attempt
+    let mut helpers: Vec<(String, String)> = vec![];
+    for it in &file.items { if let syn::Item::Impl(i) = it {
+        let ty = &i.self_ty; if !quote::quote!(#ty).to_string().replace(' ', "").starts_with("MRBFuture") { continue; }
+        for ii in &i.items { if let syn::ImplItem::Fn(g) = ii { if g.sig.ident != "poll" {
+            let gb = &g.block; let gt = quote::quote!(#gb).to_string().replace(' ', "");
+            if gt.contains("(self.iter,") { helpers.push((g.sig.ident.to_string(), gt)); }
+        } } }
+    } }
+    let cnt = |hay: &str, pat: &str| hay.matches(pat).count();
+    let positions = |hay: &str, pat: &str| -> Vec<usize> { hay.match_indices(pat).map(|x| x.0).collect() };
+    let regs = positions(&t, ".register_waker(");
+    let pend = positions(&t, "Poll::Pending");
+    let ready = cnt(&t, "Poll::Ready(");
+    o.push_str(&format!("-- poll: {}\n", t.replace('"', "'")));
+    let (form, attempts, between, pending_last, restores) = if t.contains("loop{") {
+        let sites = positions(&t, "(self.iter,");
+        let ok = sites.len() == 2 && regs.len() == 1 && pend.len() == 1 && ready == 1;
+        // the `Pending` exit is tested before the registration inside the loop body, so it can only be taken by the iteration that follows the registration
+        ("loop", if ok { 2 } else { 0 }, ok && sites[0] < regs[0], ok && pend[0] < regs[0] && sites[1] < pend[0], t.contains("self.p=Some("))
+    } else if helpers.len() == 1 && cnt(&helpers[0].1, "(self.iter,") == 2 {
+        let calls = positions(&t, &format!(".{}(", helpers[0].0));
+        let ok = calls.len() == 2 && regs.len() == 1 && pend.len() == 1 && ready >= 1 && cnt(&t, "(self.iter,") == 0;
+        ("unrolled", if ok { 2 } else { 0 }, ok && calls[0] < regs[0] && regs[0] < calls[1], ok && calls[1] < pend[0], helpers[0].1.contains("self.p=Some("))
+    } else {
+        let sites = positions(&t, "(self.iter,");
+        let ok = sites.len() == 4 && regs.len() == 1 && pend.len() == 1 && ready >= 1;
+        ("unrolled", if ok { 2 } else { 0 }, ok && sites[1] < regs[0] && regs[0] < sites[2], ok && sites[3] < pend[0], cnt(&t, "self.p=Some(") >= 2 || cnt(&t, "this.p=Some(") >= 2)
+    };
+    o.push_str(&format!("def pollShape : PollShape := {{ form := \"{form}\", attemptsAtMost := {attempts}, registersBetweenAttempts := {between}, pendingOnlyAfterRegisteredAttempt := {pending_last}, restoresPayload := {restores} }}\n"));
     Ok(o)
 }
 
@@ -1131,6 +1367,8 @@ fn loops(src: &mut Src) -> Result<String, String> {
         let _ = v.rel;
     }
     out.sort(); out.dedup();
+    // `MRBFuture::poll` is left out: how often it goes round is part of `pollShape` (`attemptsAtMost`), whether it is written as a loop or unrolled
+    out.retain(|x| !x.starts_with("(\"poll\","));
     // functions whose every loop is a `for` over a closed range / slices are listed apart: they end by themselves
     let (b, u): (Vec<String>, Vec<String>) = out.into_iter().partition(|x| { let k = x.rsplit(", \"").next().unwrap_or("").trim_end_matches("\")"); k.split('+').all(|p| p == "for") });
     Ok(format!("def loops : List (String × String) := [{}]\ndef boundedLoops : List (String × String) := [{}]\n", u.join(", "), b.join(", ")))
